@@ -194,6 +194,17 @@ func VerifC27LineDiff() {
 	shift := verifParam("shift") // right text's base is rotated by this much (insertions/deletions at the front)
 	left := verifText(nl, verifParam("hl"), verifParam("el"), base)
 	right := verifText(nr, verifParam("hr"), verifParam("er"), base[shift:]+base[:shift])
+	// "pre"/"prel": extra one-byte lines ('x' or 'y', symbolic) in front of the right / left text (pure insertions or deletions at the top)
+	for k := 0; k < verifParam("pre"); k++ {
+		v := nondetByte()
+		verifAssume(v == 'x' || v == 'y')
+		right = append([]string{string([]byte{v})}, right...)
+	}
+	for k := 0; k < verifParam("prel"); k++ {
+		v := nondetByte()
+		verifAssume(v == 'x' || v == 'y')
+		left = append([]string{string([]byte{v})}, left...)
+	}
 	l, r := strings.Join(left, "\n"), strings.Join(right, "\n")
 	d := LineDiff(l, r)
 	same := len(left) == len(right)
